@@ -238,6 +238,9 @@ def index_shape(shape, items):
     if n_ell == 0:
         # leading positions consumed from the left: only exact shapes can be handled
         if shape.ell:
+            if items and all(k[0] == 'none' for k in items):
+                # x[None]: the new leading axes are absorbed by the unknown leading part
+                return shape, {-(i + 1): -(i + 1) for i in range(len(shape.dims))}
             return None, None
         items = list(items) + [('ell',)]
     pos = next(j for j, k in enumerate(items) if k[0] == 'ell')
